@@ -110,8 +110,11 @@ def jobs(prop, tier, only_fn=None):
         NB = unit
         for order in (0, 1) if copy else (0,):
             extra = ["-DGUARD_ONLY", "-DFIX_ORDER=%d" % order]
+            # memchecks on, loop bounds beyond the object size: a clear/copy driven by an unvalidated huge size runs out
+            # of the (tiny) objects within the bound and is a failed pointer check with a trace, not an unwinding failure
             out.append(Job("%s.%s.F.guard.o%d" % (name, prop, order), prop, "h_mem.c", files,
-                           defines=_defs(kind, DU, SU, call, NB, extra), unwind_default=NB + 3, unwind_rules=prim_rules(NB), retry_unwind=NB + 12, fn=name,
+                           defines=_defs(kind, DU, SU, call, NB, extra), unwind_default=NB + 40, unwind_rules=[(r"^_memccpy_s_chk\.", NB + 3)] + prim_rules(NB + 40),
+                           memchecks=True, fn=name,
                            bounds={"layout": "G-fixed", "dmax": "symbolic in {0} u (dobj,2^64) or NULL operands", "NB": NB},
                            timeout=120 if quick else 600))
     return out
